@@ -165,8 +165,10 @@ func (s *TableAggregator) Trim(predicate func(col, row string, val int64) bool) 
 
 		removeAllInCol := true
 		for rowName, row := range s.rows {
-			if predicate(colName, rowName, row.cols[colName]) {
+			if val := row.cols[colName]; predicate(colName, rowName, val) {
 				delete(row.cols, colName)
+				row.sum -= val
+				s.cols[colName] -= val
 				trimmed++
 			} else {
 				removeAllInCol = false
